@@ -17,7 +17,7 @@ RULE = ("histories over a pool of 6 mpz / 3 mpq / 3 mpf variables: life-cycle hi
 LEVEL_TEXT = ("Lean theorems: the life-cycle/ledger model keeps every object well formed and the ledger consistent over arbitrary operation histories (induction over the op list), never hands a wrong "
               "size to realloc/free, holds no block after clearing everything, and realloc2 changes a value only by clearing it when it no longer fits. The implementation is monitored over generated "
               "histories of all public functions with a recording allocator, a well-formedness check after every call, a twin pool with minimal allocations (allocation-history independence) and an ASan build. Every function that uses TMP_DECL has its MARK/ALLOC/FREE control-flow skeleton regenerated from the source with clang on each run; a kernel-checked theorem says every skeleton is accepted by a data-flow procedure whose soundness over all paths (any number of loop iterations) is proved, so no path allocates unmarked or returns with a temporary outstanding.")
-LEVEL_NOTE = "Allocation safety is proved for the mirrored functions only (see DESIGN C04 (iv)); memory safety inside the kernels' ranges and of the functions not yet mirrored (general arms of gcd and lcm, n_pow_ui, mpq add/sub common-divisor arm and set_f, most of mpf, Toom/FFT scratch, doprnt) is sanitizer exploration."
+LEVEL_NOTE = "Allocation safety is proved for the mirrored functions only (see DESIGN C04 (iv)); memory safety inside the kernels' ranges and of the functions not yet mirrored (n_pow_ui, mpq mul_2exp/div_2exp beyond the skip loop and set_f, the TMP traffic of mpf_sub, mpf set_q/set_d/div/sqrt, Toom/FFT scratch, doprnt) is sanitizer exploration."
 
 SKIP = re.compile(r"divexact|jacobi|legendre|remove|prime|miller|sizeinbase|set_num|set_den|mpq_set_ui|mpq_set_si|canonicalize|mpq_set_d$|trial_division|mpq_inv|get_d")
 
